@@ -68,6 +68,18 @@ Theorem C19_full : C19_full_statement.
 Proof. exact fmt_diffs_full. Qed.
 Print Assumptions C19_full.
 
+(* what "up to trailing blank lines" hides, exactly: the edited document is the formatter's lines followed
+   by the original's lines after its last statement (all blank, left untouched by the edits), where the
+   formatter's own text simply ends *)
+Theorem C19_apply_exact : forall input out, fmt_bytes input = Ok out ->
+  exists es L k,
+    fmt_diffs input = Ok es /\
+    apply_edits (split_on 10 input) 0 es = L ++ skipn k (split_on 10 input) /\
+    split_on 10 out = L ++ [[]] /\
+    forallb blank_line (skipn k (split_on 10 input)) = true.
+Proof. exact fmt_diffs_exact. Qed.
+Print Assumptions C19_apply_exact.
+
 (* ---- the same at the level of the TextEdits an editor receives (genlsp/format.go) --------------- *)
 (* lsp_format maps every edit to a TextEdit from (FromLine, 0) to (ToLine, 0) with Go's int -> uint32
    conversion; lsp_apply is an editor applying such edits by character offset to the original text
